@@ -235,6 +235,8 @@ def close(a, b, tol=TOL):
 @register
 class CHECK(Check):
     pid = "C06"
+    module = "FairModel.Properties.C06X"  # base file + composition theorems (same namespace)
+    cross = (("grid", {"X1.constraint-vs-metric", "X1.gamma-dictionary"}),)
     technique = ("Lean 4 theorems over the Moments model (index, U, gamma, bound, loss moments; U/gamma arithmetic lifted "
                  "from the Python source by the translator) + compiled-driver correspondence with Moment.load_data/"
                  "index/gamma/bound")
